@@ -4,6 +4,7 @@ package props
 
 import (
 	"bytes"
+	"encoding/binary"
 	"fmt"
 
 	"github.com/Eyevinn/mp4ff/internal/vsim/ref"
@@ -71,22 +72,32 @@ func c08CompareTrees(r *sim.Run, fm, fl *mp4.File, top []*ref.Box) []mdatPair {
 		return nil
 	}
 	var pairs []mdatPair
-	var pos uint64
+	var pos, shift uint64
 	for i := range fm.Children {
 		a, b := fm.Children[i], fl.Children[i]
 		if a.Type() != b.Type() || a.Size() != b.Size() {
 			r.Violate("c08-tree", "top-level box %d: in-memory %s/%d, lazy %s/%d", i, a.Type(), a.Size(), b.Type(), b.Size())
 			return nil
 		}
-		if i < len(top) && (top[i].Type != b.Type() || uint64(top[i].Size) != b.Size() || uint64(top[i].Start) != pos) {
-			r.Violate("c08-tree", "top-level box %d: disk has %s/%d at %d, lazy tree %s/%d at %d", i, top[i].Type, top[i].Size, top[i].Start, b.Type(), b.Size(), pos)
-			return nil
+		shift0 := shift // disk position of this box = pos + shift0
+		if i < len(top) {
+			// a non-mdat box stored with the 64-bit size form is re-encoded with the normal header by design: Size()
+			// reports 8 bytes less than the disk box in both modes; recorded positions are positions on the disk
+			want := uint64(top[i].Size)
+			if top[i].Hdr == 16 && top[i].Type != "mdat" {
+				want -= 8
+			}
+			if top[i].Type != b.Type() || want != b.Size() || uint64(top[i].Start) != pos+shift {
+				r.Violate("c08-tree", "top-level box %d: disk has %s/%d at %d, lazy tree %s/%d at %d", i, top[i].Type, top[i].Size, top[i].Start, b.Type(), b.Size(), pos+shift)
+				return nil
+			}
+			shift += uint64(top[i].Size) - want
 		}
 		switch x := a.(type) {
 		case *mp4.MdatBox:
 			y := b.(*mp4.MdatBox)
-			if x.StartPos != y.StartPos || x.StartPos != pos {
-				r.Violate("c08-pos", "mdat %d StartPos: in-memory %d lazy %d disk %d", i, x.StartPos, y.StartPos, pos)
+			if x.StartPos != y.StartPos || x.StartPos != pos+shift0 {
+				r.Violate("c08-pos", "mdat %d StartPos: in-memory %d lazy %d disk %d", i, x.StartPos, y.StartPos, pos+shift0)
 			}
 			if x.PayloadAbsoluteOffset() != y.PayloadAbsoluteOffset() || x.HeaderSize() != y.HeaderSize() {
 				r.Violate("c08-pos", "mdat %d payload offset/header size differ: %d/%d vs %d/%d", i, x.PayloadAbsoluteOffset(), x.HeaderSize(), y.PayloadAbsoluteOffset(), y.HeaderSize())
@@ -96,8 +107,8 @@ func c08CompareTrees(r *sim.Run, fm, fl *mp4.File, top []*ref.Box) []mdatPair {
 			}
 		case *mp4.MoofBox:
 			y := b.(*mp4.MoofBox)
-			if x.StartPos != y.StartPos || x.StartPos != pos {
-				r.Violate("c08-pos", "moof %d StartPos: in-memory %d lazy %d disk %d", i, x.StartPos, y.StartPos, pos)
+			if x.StartPos != y.StartPos || x.StartPos != pos+shift0 {
+				r.Violate("c08-pos", "moof %d StartPos: in-memory %d lazy %d disk %d", i, x.StartPos, y.StartPos, pos+shift0)
 			}
 		}
 		pos += a.Size()
@@ -186,6 +197,7 @@ func c08Run(r *sim.Run) {
 		}
 		if t.Chance(300) {
 			v.FreePad = 8 + t.Draw(24)
+			v.FreeLarge = t.Bool()
 		}
 		nd, err := work.ApplyLayout(img, v)
 		if err == nil {
@@ -211,6 +223,40 @@ func c08Run(r *sim.Run) {
 			if v.MdatFirst {
 				r.Probe("mdat-before-moov")
 			}
+		}
+	}
+	if !e.cf.Progressive && movie == nil && t.Chance(150) {
+		// fragmented stream: a free box (32- or 64-bit size form) in front of a seeded fragment
+		var moofs []*ref.Box
+		for _, b := range top {
+			if b.Type == "moof" {
+				moofs = append(moofs, b)
+			}
+		}
+		if len(moofs) > 0 {
+			at := moofs[t.Draw(len(moofs))].Start
+			n := 16 + t.Draw(24)
+			fb := make([]byte, n)
+			binary.BigEndian.PutUint32(fb, uint32(n))
+			copy(fb[4:], "free")
+			large := t.Bool()
+			if large {
+				binary.BigEndian.PutUint32(fb, 1)
+				binary.BigEndian.PutUint64(fb[8:], uint64(n))
+			}
+			nd := append(append(append([]byte(nil), img[:at]...), fb...), img[at:]...)
+			f2, err := decodeMem(nd)
+			top2, werr := ref.Walk(nd, 0, int64(len(nd)), true)
+			if werr != nil {
+				panic(sim.HarnessAbort{Msg: "variant not walkable: " + werr.Error()})
+			}
+			if err != nil {
+				r.Violate("c08-variant-decode", "in-memory decode of %s with a free box (large=%v) in front of the moof at %d failed: %v", e.cf.Name, large, at, err)
+				return
+			}
+			img, fm, top = nd, f2, top2
+			variant = fmt.Sprintf("free(%d, large=%v) before moof at %d", n, large, at)
+			r.Probe("fragmented-free-variant")
 		}
 	}
 	cfg := sim.DrawDelivery(t)
